@@ -25,6 +25,7 @@ type concIn struct {
 	Calls      int    `json:"calls"`
 	Seed       int64  `json:"seed"`
 	Comp       int    `json:"comp"`
+	RecSize    int    `json:"recsize"` // concrio: > 0 makes every record that many bytes longer (records larger than the 4 KiB seek window)
 	CutTail    bool   `json:"cuttail"` // concrio: the file is cut inside its last record before the readers start (reads of it must fail, all others stay exact)
 }
 
@@ -171,7 +172,7 @@ func runConcRIO(args []string) error {
 	var offs []uint64
 	payload := func(i int) []byte {
 		b := []byte(fmt.Sprintf("rec-%05d-", i))
-		for j := 0; j < i%97; j++ {
+		for j := 0; j < i%97+in.RecSize; j++ {
 			b = append(b, byte(j*7+i))
 		}
 		return b
@@ -244,6 +245,9 @@ func runConcRIO(args []string) error {
 			for c := 0; c < in.Calls; c++ {
 				if rng.Intn(2) == 0 {
 					i := rng.Intn(len(offs))
+					if in.CutTail && rng.Intn(4) == 0 {
+						i = len(offs) - 1 // the record the file was cut in: every fourth read fails, next to the succeeding ones
+					}
 					b, err := mr.ReadNextAt(offs[i])
 					r := ""
 					if err != nil {
